@@ -16,6 +16,15 @@ func Harness_C11_create_account_login() {
 	verifInitGlobals()
 	store.Devices = verifDevices{}
 	outcome := &verifAuthOutcome{level: auth.LevelAuth}
+	// the authenticator may refuse the new record (password policy, malformed secret, duplicate, store failure)
+	switch verifChoose("addRecord", 4) {
+	case 1:
+		outcome.addErr = types.ErrPolicy
+	case 2:
+		outcome.addErr = types.ErrDuplicate
+	case 3:
+		outcome.addErr = types.ErrInternal
+	}
 	verifInstallStoreObj(outcome)
 	globals.authValidators = nil
 	s := verifNewDispatchSession("sid-1")
@@ -42,6 +51,10 @@ func Harness_C11_create_account_login() {
 		}
 	}
 	verifAssert(n == 1, "account-request-answered-exactly-once")
+	if outcome.addErr != nil {
+		verifAssert(code >= 400, "refused-account-creation-answered-with-an-error")
+		verifAssert(s.uid == uid0 && s.authLvl == lvl0, "refused-account-creation-does-not-authenticate")
+	}
 	if uid0 != 0 {
 		verifAssert(s.uid == uid0 && s.authLvl == lvl0, "logged-in-session-is-never-re-authenticated")
 		if login {
